@@ -147,6 +147,9 @@ def replay_alias(p):
 def replay_long_list(p):
     _quiet()
     n, pos, x = p['args'][:3]
+    if 'edges' in p.get('obligation', ''):
+        n, pos, k, d = p['args'][:4]
+        x = [-2147483648, 2147483647, 4294967296, -4294967296, 1099511627776, 9223372036854775807, -9223372036854775808, 0][k] + d
     df, lf = _small_file()
     ch = lf.add_channel('C', data=np.arange(2, dtype=np.float64))
     lf.add_frame('F', channels=(ch,))
